@@ -12,7 +12,8 @@ EXPLANATION = (
     "Residual: iteration over array operands by @array_support (outside the quantifier's scalar patterns); Python's & | ^ on ints (lemma)."
     ' Added after the third round of seeded changes: R4 element-wise helpers read and rebuild arrays in the same (C) order; raw stores bypass the scale/bias map (C17.R1); codes reach the buffer only through set_val (C02.R1).'
     ' Added after the fourth round of seeded changes: C20.R8 objects carry only the documented attributes and no function writes module-level containers (no caches / memos that go stale).'
-    ' Added after the fifth round of seeded changes: constructor state (C20.R2); C20.R8 also forbids mutable default arguments and private attributes hung on operands (x._cache, x.__dict__[...]).')
+    ' Added after the fifth round of seeded changes: constructor state (C20.R2); C20.R8 also forbids mutable default arguments and private attributes hung on operands (x._cache, x.__dict__[...]).'
+    ' Added after the sixth round of seeded changes: (no new rule; the checks of this property are now also part of C18).')
 ASSUMPTIONS = ["for 0 <= v < 2^n: (v & 2^(n-1)) != 0  <=>  v >= 2^(n-1)"]
 TRUSTED = ["CPython ast", "fxlint term normaliser"]
 
